@@ -94,6 +94,26 @@ CLAIMED.update({
    design="4 C20"),
 })
 
+CLAIMED.update({
+ "C04": dict(
+   technique="Coq proof: invariants over all request histories of a state-machine model of FormulaManager (core/Manager.v) + history correspondence of returned ids and complete tables inside Coq + structural-key / blueprint / copy oracle on the implementation",
+   text="coq/props/C04.v, for every history and every address order, closed under the global context: no duplicate content, dense ids, one node per structure; accessors read back what create_node was given; existing contents are returned unchanged and ids keep their trees; Int / Real / String / BV spellings denote the same object iff the same value (and width); the outcome of Int(v)/Real(v) is a function of v alone; Array children depend only on the map minus default-valued entries; normalize is total on symbols of any sort and produces, for array-value-free constructor-normal formulas, a copy with the same tree whose nodes all belong to the target table, leaving the target's nodes untouched.",
+   note="One clause refuted and open: normalize:array-assignment-order (Array sorts assignments by id(), so a copy of an array value may list them in another order). That constructor-built nodes satisfy `copyable` is checked on every node of every history, not proved. 'No shared objects between environments' is an implementation-level oracle check. Trusted: Coq kernel, hand model tied by history correspondence, tocoq.skey.",
+   design="4 C04"),
+ "C08": dict(
+   technique="Coq model of Tokenizer + SmtLibParser (cache, term reader, command readers) over the constructor/type-checker/substituter models; lexer lemma and machine-checked refuted witnesses against core/SmtStd.v; exact model/implementation correspondence on generated, directed, malformed and corpus scripts; independent SMT-LIB reader + evaluator as oracle with deviation-classified keys",
+   text="PARTIAL. coq/props/C08.v: lexer round trip on plain tokens; agreement with the standard for print-outs that read back to their own term (corollary of C07); five clauses of the property are refuted by closed witnesses on the faithful model (sequential let, define-fun shadowing a binder, define-fun capture, undeclared identifier read as a string, quoted symbols read as plain tokens) - open findings. The general `parse_agrees` (reader stack machine against std_eval for all scripts) is NOT proved: it is carried by the exact correspondence (about 1650 scripts per run incl. a malformed stream and a regression corpus of 212 accepted texts) and by the independent reader.",
+   note="Trusted: Coq kernel, core/Sem.v + core/SmtStd.v, hand models tied by exact correspondence (command lists of terms, error classes), harness/c08_ref.py + refeval.py. OMT extension commands, annotations and the interactive reader are not modelled.",
+   design="4 C08"),
+ "C09": dict(
+   technique="Composition of the C07 printer model and the C08 reader model, evaluated to completion inside Coq on explicit term families (16245 + 39 terms, both printers); HrPrinter model; correspondence of the composition and of hr_print with the implementation; identity/meaning oracle on formulas, scripts and HRParser",
+   text="PARTIAL / bounded families. coq/props/C09.v: print-then-read is the identity (up to the order of quantified variables) on every Core/LIA term with at most two operator levels (16245 terms) and on one term per operator of every theory (39 terms), for both printers, by complete evaluation; a constant-array literal reads back as the store chain with the same meaning (all interpretations). The general round-trip induction, the script round trip and the human-readable (Pratt) parser are not modelled or proved: they are carried by object identity / meaning oracles on generated formulas and scripts.",
+   note="Trusted: Coq kernel (vm_compute for the families), the two hand models tied by correspondence, harness/refeval.py. Seven open findings (quantifier variable order, Int constant division folded to Real, declare-const serialisation, unquoted sort / define-fun names, HR serialisations the HR parser rejects).",
+   design="4 C09"),
+})
+CLAIMED["C10"]["text"] = "coq/props/C10.v: value preservation of NNF, AIG, both partitions (every order/set of the parts), Shannon, self-substitution and TimesDistributor (Int, Real) for all terms of the stated fragments and all well-sorted interpretations; shapes of NNF, AIG, QE (quantifier-free) and prenex (prefix over a quantifier-free matrix, any clashes). Prenex value preservation is proved only for quantifier-free inputs (full statement recorded; the rest is carried by the exact correspondence up to fresh-name renaming and by the oracle). propagate_toplevel is refuted on a last-step model (open finding: substitution captured by a binder) and is otherwise oracle-only."
+CLAIMED["C10"]["technique"] = "Coq structural-induction proofs over hand models of NNFizer, AIGer, partitions, Shannon and self-substitution QE, TimesDistributor and PrenexNormalizer + per-run model/implementation correspondence (exact structure; prenex up to fresh-name renaming) + independent-evaluator search oracle with exact Bool/BV quantifier evaluation and shape predicates"
+
 NOT_YET = "machinery for this property is not built yet (work in progress, see DESIGN.md section 8)"
 
 def main():
